@@ -44,9 +44,18 @@ M = [
     ('m10a', 'C10', 'concepts/lattices.py',
      "            e = c._extent\n            c.atoms = tuple(a for a in atoms if e | a._extent == e)",
      "            e = c._extent\n            c.atoms = tuple(a for a in atoms if e & a._extent)"),
+    ('m15b', 'C15', 'concepts/algorithms/lindig.py',
+     "        if extent & ~objects_and_add & minimal:",
+     "        if extent & ~objects_and_add & minimal and add != 4:"),
     ('m16a', 'C16', 'concepts/junctors.py',
      "        elif self is Replication:\n            self = Implication\n            left, right = right, left",
      "        elif self is Replication:\n            self = Implication"),
+    ('m17a', 'C17', 'concepts/definitions.py',
+     "        self._objects.add(obj)\n        self._properties |= properties\n        self._pairs.update((obj, p) for p in properties)",
+     "        self._objects.add(obj)\n        self._properties |= set(properties)\n        self._pairs.update((obj, p) for p in properties)"),
+    ('m17b', 'C17', 'concepts/definitions.py',
+     "    objects = left._objects & right._objects\n",
+     "    objects = set(left._objects) & set(right._objects)\n"),
     ('m18a', 'C18', 'concepts/contexts.py',
      "        for it in intent.powerset():\n            if it.prime() == extent:",
      "        for it in intent.powerset():\n            if it.prime() == extent and (it.count() != 2 or it == intent):"),
